@@ -115,6 +115,31 @@ Section ArcAlg.
   (* ---------------------------------------------------------------- *)
   (* rotation                                                           *)
   (* ---------------------------------------------------------------- *)
+  (* the two algebraic facts, for arbitrary m = rot_matrix and cs *)
+  Lemma zp1_rotate_gen (m cs s e o : C) :
+    cnorm2 N cs <> zero N -> cnorm2 N m <> zero N ->
+    cmul N (cdiv N (c1 N) (cmul N m cs)) (csub N (rotate_point N cs o s) (rotate_point N cs o e))
+    = cmul N (cdiv N (c1 N) m) (csub N s e).
+  Proof.
+    unfold rotate_point. destruct m as [mr mi], cs as [c s'], s as [sx sy], e as [ex ey], o as [ox oy].
+    cunfold. intros Hcs Hm.
+    assert (Hp : mul N (add N (mul N mr mr) (mul N mi mi)) (add N (mul N c c) (mul N s' s')) <> zero N)
+      by (apply (mul_nz N OK); assumption).
+    assert (Hp' : add N (mul N (sub N (mul N mr c) (mul N mi s')) (sub N (mul N mr c) (mul N mi s')))
+                        (mul N (add N (mul N mr s') (mul N mi c)) (add N (mul N mr s') (mul N mi c)))
+                  <> zero N).
+    { intros E. apply Hp. rewrite <- E. ring. }
+    do 3 cunfold. apply cplx_eq; cbn [fst snd]; field; split; assumption.
+  Qed.
+
+  Lemma center_rotate_gen (m cs cp s e o : C) :
+    arc_center N (cmul N m cs) cp (rotate_point N cs o s) (rotate_point N cs o e)
+    = rotate_point N cs o (arc_center N m cp s e).
+  Proof.
+    unfold arc_center, rotate_point, two. destruct_c. cunfold. cbn [lit of_pos].
+    apply cplx_eq; cbn [fst snd]; field; numnz OK.
+  Qed.
+
   Section Rot.
     Variables (rot degs : K) (cs : C).
     (* exp(1j*radians(rotation + degs)) = exp(1j*radians(rotation)) * exp(1j*radians(degs)) *)
@@ -127,30 +152,13 @@ Section ArcAlg.
       = arc_zp1_of N T s rot e.
     Proof.
       unfold arc_zp1_of, arc_zp1. rewrite Hrot. f_equal.
-      revert Hrm. generalize (arc_rotm_of T rot). intros m Hm.
-      unfold rotate_point. destruct_c. revert Hcs Hm. cunfold. intros Hcs' Hm.
-      apply cplx_eq; cbn [fst snd]; field; repeat split; try assumption.
-      all: match goal with |- ?e <> _ =>
-             let c := fresh in let d := fresh in
-             (* |m*cs|^2 = |m|^2 |cs|^2 *)
-             idtac end.
-      all: match goal with
-           | Hm : add N (mul N ?a ?a) (mul N ?b ?b) <> zero N,
-             Hc : add N (mul N ?c ?c) (mul N ?d ?d) <> zero N |- ?e <> zero N =>
-               replace e with (mul N (add N (mul N a a) (mul N b b)) (add N (mul N c c) (mul N d d)))
-                 by ring;
-               apply (mul_nz N OK); assumption
-           end.
+      apply zp1_rotate_gen; assumption.
     Qed.
 
     Lemma center_rotate cp s e o :
       arc_center N (arc_rotm_of T (add N rot degs)) cp (rotate_point N cs o s) (rotate_point N cs o e)
       = rotate_point N cs o (arc_center N (arc_rotm_of T rot) cp s e).
-    Proof.
-      rewrite Hrot. generalize (arc_rotm_of T rot). intros m.
-      unfold arc_center, rotate_point, two. destruct_c. cunfold. cbn [lit of_pos].
-      apply cplx_eq; cbn [fst snd]; field; numnz OK.
-    Qed.
+    Proof. rewrite Hrot. apply center_rotate_gen. Qed.
 
     Theorem arc_init_v_rotate fx s radius large sweep e o t :
       arc_point N T (arc_init_v N T fx (rotate_point N cs o s) radius (add N rot degs) large sweep
@@ -159,12 +167,11 @@ Section ArcAlg.
     Proof.
       destruct (same_fields s e (rotate_point N cs o s) (rotate_point N cs o e) radius rot
                             (add N rot degs) large sweep fx (zp1_rotate s e o)) as (Hr & Ht & Hd).
-      apply arc_point_rot; auto.
-      - exact Hrot.
-      - unfold arc_init_v. cbn [a_center].
-        rewrite (same_cp s e (rotate_point N cs o s) (rotate_point N cs o e) radius rot
+      apply arc_point_rot; [exact Hr|exact Ht|exact Hd|exact Hrot|].
+      unfold arc_init_v. cbn [a_center].
+      rewrite (same_cp s e (rotate_point N cs o s) (rotate_point N cs o e) radius rot
                          (add N rot degs) large sweep fx (zp1_rotate s e o)).
-        apply center_rotate.
+      apply center_rotate.
     Qed.
     Theorem arc_init_rotate s radius large sweep e o t :
       arc_point N T (arc_init N T (rotate_point N cs o s) radius (add N rot degs) large sweep
